@@ -24,6 +24,26 @@ CHECKS = {
             'values; then is, <<, >>, union, intersect, except, root, innermost, outermost on nodes of that tree are compared with the set model.',
             'Trusted: rv/gen_xml.py spec and twin builders, rv/models/xdm.py; relative order among the namespace nodes of one element unconstrained.',
             'DESIGN.md section 4 (C02)'),
+    'C03': ('exploration',
+            'outcome-classifying runtime monitor at the API boundary + parser-state invariant after every parse + long-lived-vs-fresh parser history oracle + CPU-time watchdog',
+            'A fixed corpus (valid seeds, token-level mutations, random strings, an ill-typed call matrix over every registered function and an '
+            'ill-typed operator matrix) is parsed and evaluated by the four parser versions in four dynamic contexts; every outcome is classified '
+            '(value | ElementPathError with code | any other exception, keyed by type and innermost library frame | CPU budget exceeded); after '
+            'every parse() the parser instance must equal its post-__init__ state; one long-lived parser per history must answer every source '
+            'like a fresh parser.',
+            'The corpus is fixed per tier/shard (VERIF_SEED only composes the parse histories): escapes are so numerous in the unchanged tree that '
+            'only a bounded corpus saturates, see DESIGN.md. Hangs are judged by CPU time (10 s per source), never wall time.',
+            'DESIGN.md section 4 (C03)'),
+    'C04': ('exploration',
+            'differential runtime monitor: independent EBNF precedence/associativity reference vs the parsed token trees; layout invariance; source round trip; hash-seed child processes',
+            'All ordered pairs of operators of each XPath version (plus random 2-4 operator sequences with unary, postfix, call and binder '
+            'decorations) are parsed flat and fully parenthesised as an independent EBNF transcription prescribes and the token trees compared '
+            '(or both must be syntax errors); the same token sequences are re-rendered with random whitespace and (: comments :) and must give '
+            'the same tree; t.source must re-parse to the same tree and value; a fixed corpus is tokenised and parsed in child interpreters '
+            'under different PYTHONHASHSEED values and compared.',
+            'Trusted: rv/models/grammar.py; if/for/let/some/every in operand position are not decided (not operators of the property); '
+            'Token.tree does not show occurrence indicators, covered through value comparison only.',
+            'DESIGN.md section 4 (C04)'),
     'C05': ('exploration',
             'before/after snapshot monitors (input tree, caller variable values incl. timezones / map and array contents, namespaces, context variable table) + reused-vs-fresh repeatability oracle over evaluation histories + lexical-scope templates',
             'Every evaluation of a corpus of expression templates (all call forms, ElementTree and lxml, implicit timezones) is bracketed by deep '
